@@ -68,6 +68,13 @@ CHECKS = {
         "design_ref": "DESIGN.md section 4, C17",
         "level_note": "Trusted: the embedded Lark runtime raises only LarkError subclasses; mypy call resolution; Any-typed arguments conform to annotations. Not decided: implicit exceptions of builtins other than int() (float('1e999') is inf).",
     },
+    "C19": {
+        "engine": "E1+E2+E5",
+        "technique": "interprocedural write-then-raise analysis on statement CFGs of the definition entry points (summaries of may-write-naming / may-raise per callee); dominance of raising guards over registry bindings; constructor early-return rule; creation trace and registries from the declaration evaluator under every entry module; memo-over-registry rule",
+        "level_text": "A failing definition leaves the registries untouched iff no raise is reachable after a naming write on any path through the entry point and its callees; a name is never bound to two objects iff every binding is dominated by a raising test and the shipped tables have no duplicates; a declared name survives an earlier anonymous construction iff the declaring constructor registers late names. All decided structurally and, for the shipped configuration, exhaustively; discharged after five fix: commits.",
+        "design_ref": "DESIGN.md section 4, C19",
+        "level_note": "Trusted: mypy call resolution; E5's declaration model. The intern table _known is outside the armed rule (an orphan left by a failing define is unreachable by name, symbol or key); Dimension.scale's translate() guard is infeasible for a fresh unit and is not an entry.",
+    },
     "C18": {
         "engine": "E1+E4+E5",
         "technique": "abstract interpretation of LogarithmicUnit.level and Level.quantify to normal forms with ln/exp heads, compared with the logarithmic definition; units-of-measure typing of the log argument; structural rules; declared bases from E5",
